@@ -67,7 +67,27 @@ var (
 
 var localStates = []string{"F0", "F1", "missing", "dir"}
 
-func answerOK(a string) bool { return a == "L1" || a == "L2" || a == "same" || a == "empty" }
+func answerOK(a string) bool {
+	return a == "L1" || a == "L2" || a == "same" || a == "empty" || a == "big"
+}
+
+// bigBody is a list of more than 64 MiB: a rule, 67000 comment lines of 1 KiB
+// and a last rule.  Its normal form is the two rules.
+var bigBodyText string
+
+func bigBody() string {
+	if bigBodyText == "" {
+		var sb strings.Builder
+		sb.WriteString("||bighead.example^\n")
+		line := "# " + strings.Repeat("c", 1021) + "\n"
+		for i := 0; i < 67000; i++ {
+			sb.WriteString(line)
+		}
+		sb.WriteString("||bigtail.example^\n")
+		bigBodyText = sb.String()
+	}
+	return bigBodyText
+}
 
 func alphabet(quick bool, root string) (ops []Op) {
 	for _, a := range answers {
@@ -195,6 +215,8 @@ func (t *transport) RoundTrip(req *http.Request) (*http.Response, error) {
 		return mk(200, contents[u][a], -1), nil
 	case "same":
 		return mk(200, t.w.lastRaw[u], -1), nil
+	case "big":
+		return mk(200, bigBody(), -1), nil
 	case "empty":
 		return mk(200, "", -1), nil
 	case "connerr":
@@ -234,6 +256,8 @@ func (w *world) servedRaw(u, a string) string {
 		return contents[u][a]
 	case "same":
 		return w.lastRaw[u]
+	case "big":
+		return bigBody()
 	}
 	return ""
 }
@@ -825,7 +849,37 @@ func (e *seqEnv) execRoot(root string, hist []Op) (st lib.Step) {
 	return st
 }
 
+// runBig: "arbitrary list content" includes a list of more than 64 MiB; the
+// histories around it are run once, outside the search.
+func runBig(c *lib.Ctx) {
+	e := &seqEnv{c: c}
+	for _, h := range [][]Op{
+		{{Kind: "FB", B: "L1"}, {Kind: "FB", B: "big"}, {Kind: "FB", B: "same"}},
+		{{Kind: "FA", A: "big"}, {Kind: "S25", B: "big", A: "same"}},
+	} {
+		for n := 2; n <= len(h); n++ {
+			st := e.execRoot("", h[:n])
+			c.Count("big_list_histories", 1)
+			if st.VKey != "" {
+				c.Violation("big-list:"+st.VKey, "with a list of "+fmt.Sprint(len(bigBody()))+" bytes (two rules around 67000 comment lines): "+clipDesc(st.VDesc), h[:n])
+				return
+			}
+		}
+	}
+	c.Distinct("nontrivial", "big-list")
+}
+
+func clipDesc(s string) string {
+	if len(s) > 3000 {
+		return s[:1500] + " ... " + s[len(s)-1200:]
+	}
+	return s
+}
+
 func runSequences(c *lib.Ctx) {
+	if c.ShardI == c.ShardN-1 {
+		runBig(c)
+	}
 	// Depth per root.  The "fresh" root (nothing stored yet) differs from the
 	// seeded one only until the first successful refresh of each list.
 	depths := map[string]int{"": 3, "fresh": 2}
